@@ -20,7 +20,9 @@ def host_of_result(res):
 
 HOSTS = ["a.com", "www.a.com", "WWW.A.Com", "m.a.com", "mobile.a.co.uk", "amp.a.com", "amp-x.a.com", "fr.a.com", "fr-FR.facebook.com", "www.fr.a.com", "fr.www.a.com",
          "xn--tlrama-bvab.fr", "télérama.fr", "a.co.uk", "fr.co.uk", "de.a.com.au", "forum-m.a.com", "a.com.", "blog.a.pvt.k12.ma.us", "localhost", "127.0.0.1", "fr.com", "us.gov",
-         "en.wikipedia.org", "zz.a.com", "www2.fr-be.a.org"]
+         "en.wikipedia.org", "zz.a.com", "www2.fr-be.a.org", "xn--amp-caf-hya.fr"]
+# given to the bare-hostname helpers only (inside a URL a blank in the authority is not a hostname any more)
+HOSTS_BARE_ONLY = ["\x00 www.a.com", " A.com\x00", "\tFR.a.com "]
 
 
 def urls():
@@ -29,7 +31,11 @@ def urls():
         for form in ("%s", "http://%s", "https://%s/a/b?x=1#f", "//%s:8080/", "http://u:p@%s/", "  %s/path  ", "http://%s\x00/", "HTTP://%s:80"):
             out.append(form % h)
     out += ["http://a.com/r?url=http%3A%2F%2Fwww.b.com%2Fx", "https://www.google.com/url?q=https://fr.b.co.uk/a", "http://a.com/?u=/local",
-            "https://b-com.cdn.ampproject.org/c/s/www.b.com/a", "", "   ", "http://a.com:99999/", "http://[::1]/", "http://[a.com/", "?", "/rel"]
+            "https://b-com.cdn.ampproject.org/c/s/www.b.com/a", "", "   ", "http://a.com:99999/", "http://[::1]/", "http://[a.com/", "?", "/rel",
+            # control characters next to whitespace / before the scheme, an upper-case redirect target, a scheme-less url with a relative redirect,
+            # a punycode label that decodes to an 'amp-' prefix
+            "\x00http://www.a.com", "\x00 www.a.com", " \x1f\tWWW.A.com/x\x00 ", "a.com/?u=HTTP://B.COM/x", "http://a.com/r?URL=HTTPS%3A%2F%2FWWW.B.COM",
+            "a.com:8080/p?u=/x", "xn--amp-caf-hya.fr", "http://xn--amp-caf-hya.fr/x", "http://www.xn--amp-caf-hya.fr/"]
     return out
 
 
@@ -127,17 +133,19 @@ def check_url(col, u):
 
 
 def check_host(col, h):
+    # a hostname wrapped in blanks / control characters is compared with the scheme-less URL it is (inside 'http://.../' the blanks would be part of the authority)
+    pre, post = ("", "") if h in HOSTS_BARE_ONLY else ("http://", "/")
     for kw in ({"normalize_amp": True}, {"normalize_amp": False}, {}):
-        full = call(normalize_url, "http://" + h + "/", infer_redirection=False, **kw)
+        full = call(normalize_url, pre + h + post, infer_redirection=False, **kw)
         r = call(normalize_hostname, h, **kw)
-        if full[0] == "ok" and full[1] != "http://" + h + "/":
+        if full[0] == "ok" and full[1] != pre + h + post:
             col.nontriv(("nh", h))
             eq(col, "normalize_hostname==host(normalize_url)", "ural.normalize_url.normalize_hostname", dict(kw, hostname=h) if kw else {"hostname": h, "options": "defaults"},
                r, ("ok", host_of_result(full[1])))
     for kw in ({"strip_suffix": False}, {"strip_suffix": True}, {}):
-        full = call(fingerprint_url, "http://" + h + "/", **kw)
+        full = call(fingerprint_url, pre + h + post, **kw)
         r = call(fingerprint_hostname, h, **kw)
-        if full[0] == "ok" and full[1] != "http://" + h + "/":
+        if full[0] == "ok" and full[1] != pre + h + post:
             col.nontriv(("fh", h))
             eq(col, "fingerprint_hostname==host(fingerprint_url)", "ural.fingerprint_url.fingerprint_hostname", dict(kw, hostname=h) if kw else {"hostname": h, "options": "defaults"},
                r, ("ok", host_of_result(full[1])))
@@ -167,7 +175,7 @@ def main():
         col.dump(a.out)
         return
     U = urls()
-    H = list(HOSTS)
+    H = list(HOSTS) + HOSTS_BARE_ONLY
     rnd = random.Random(a.seed)
     labels = ["a", "www", "m", "fr", "fr-fr", "de", "amp", "amp-x", "blog", "xn--bcher-kva", "bücher", "EN", "zz", "mobile", "www3"]
     sfx = ["com", "co.uk", "fr", "org", "com.au", "k12.ma.us"]
